@@ -67,7 +67,7 @@ func bound(tier string) string {
 	}
 	b := fmt.Sprintf("documents: gens.PathData(%d) as JSON (= oj.JSON Sort) and SEN (= sen.String Sort) text plus the descending-key-order texts of every document with a "+
 		"multi-member object = %d text pairs; single targets: all %d paths of <= 2 fragments over gens.Paths(false) (%d fragments, a filter only as the last fragment) "+
-		"x oj.Match, oj.MatchString, oj.MatchLoad{whole, 1-byte, every 2-split}, sen.Match, sen.MatchString, sen.MatchLoad{whole, 1-byte, every 2-split}",
+		"x oj.Match, oj.MatchString, oj.MatchLoad{whole, 1-byte, every 2-split, an empty read first / in the middle / before io.EOF, io.EOF with the data}, sen.Match, sen.MatchString, sen.MatchLoad{the same}",
 		n, len(pl.docs), len(pl.singles), len(pl.a.Frags))
 	if thorough {
 		b += fmt.Sprintf("; all %d paths of 3 fragments that hold a descent or end in a filter x oj.Match, sen.Match (a failing case is re-run through every entry); "+
@@ -504,6 +504,16 @@ func (e execSpec) chunks(n int) []int {
 		return out
 	case "split":
 		return []int{e.K, n - e.K}
+	// the reader's other lawful answers: a chunk of length 0 is one empty read
+	// (0, nil); "eof-with-data" delivers io.EOF together with the only chunk
+	case "empty-first":
+		return []int{0, n}
+	case "empty-mid":
+		return []int{n / 2, 0, n - n/2}
+	case "empty-last":
+		return []int{n, 0}
+	case "eof-with-data":
+		return []int{n}
 	}
 	return nil
 }
@@ -532,6 +542,9 @@ func (d *docInfo) execList(level int) []execItem {
 	specs := []execSpec{{Entry: pkg + "Match"}}
 	if level >= 1 {
 		specs = append(specs, execSpec{Entry: pkg + "MatchString"}, execSpec{Entry: pkg + "MatchLoad", Chunk: "whole"}, execSpec{Entry: pkg + "MatchLoad", Chunk: "bytes"})
+		for _, ck := range []string{"empty-first", "empty-mid", "empty-last", "eof-with-data"} {
+			specs = append(specs, execSpec{Entry: pkg + "MatchLoad", Chunk: ck})
+		}
 	}
 	if level >= 2 {
 		for k := 1; k < len(d.text); k++ {
@@ -553,11 +566,14 @@ type chunkReader struct {
 	i    int
 	off  int
 	bad  bool
+	// eofWithLast: io.EOF comes together with the last chunk
+	eofWithLast bool
 }
 
 func (r *chunkReader) Read(p []byte) (int, error) {
-	for r.i < len(r.lens) && r.lens[r.i] == 0 {
+	if r.i < len(r.lens) && r.lens[r.i] == 0 {
 		r.i++
+		return 0, nil // an empty read: nothing happened
 	}
 	if r.i >= len(r.lens) {
 		return 0, io.EOF
@@ -570,6 +586,9 @@ func (r *chunkReader) Read(p []byte) (int, error) {
 	copy(p, r.data[r.off:r.off+n])
 	r.off += n
 	r.i++
+	if r.eofWithLast && r.i == len(r.lens) {
+		return n, io.EOF
+	}
 	return n, nil
 }
 
@@ -612,14 +631,14 @@ func runExecData(e execSpec, text string, data []byte, chunks []int, targets []j
 	case "oj.MatchString":
 		r.err = oj.MatchString(text, onData, targets...)
 	case "oj.MatchLoad":
-		rd = &chunkReader{data: data, lens: chunks}
+		rd = &chunkReader{data: data, lens: chunks, eofWithLast: e.Chunk == "eof-with-data"}
 		r.err = oj.MatchLoad(rd, onData, targets...)
 	case "sen.Match":
 		r.err = sen.Match(data, onData, targets...)
 	case "sen.MatchString":
 		r.err = sen.MatchString(text, onData, targets...)
 	case "sen.MatchLoad":
-		rd = &chunkReader{data: data, lens: chunks}
+		rd = &chunkReader{data: data, lens: chunks, eofWithLast: e.Chunk == "eof-with-data"}
 		r.err = sen.MatchLoad(rd, onData, targets...)
 	default:
 		panic("c17: unknown entry " + e.Entry)
